@@ -99,3 +99,40 @@ fn ka1_alloc_overflow_and_null() {
     assert!(unsafe { (*ctxp).free_calls } == 0);
     kani::cover!(len == usize::MAX);
 }
+
+/// The two halves of the allocator shim choose their strategy independently (`allocate_layout` from `zalloc`, `deallocate`
+/// from `zfree`), so every stream must end up with a matched pair: whatever subset of callbacks the caller supplied before
+/// init, after the default-allocator fallback both are the caller's (untouched, same opaque) or both are the default.
+/// (The three lines below are the prologue shared by deflate::init, inflate::init and inflateBackInit.)
+#[kani::proof]
+#[kani::unwind(4)]
+#[kani::stub(core::fmt::write, stub_fmt_write)]
+#[kani::stub(core::panicking::panic_nounwind, stub_pn)]
+#[kani::stub(core::panicking::panic_nounwind_fmt, stub_pnf)]
+fn ka3_default_allocator_fallback_is_a_matched_pair() {
+    let mut ctx = new_ctx(0, false);
+    let op = &mut ctx as *mut Ctx as *mut c_void;
+    let has_alloc: bool = kani::any();
+    let has_free: bool = kani::any();
+    let mut stream = crate::c_api::z_stream::default();
+    stream.zalloc = if has_alloc { Some(za) } else { None };
+    stream.zfree = if has_free { Some(zf) } else { None };
+    stream.opaque = op;
+    // prologue of init
+    if stream.zalloc.is_none() || stream.zfree.is_none() {
+        stream.configure_default_rust_allocator()
+    }
+    assert!(stream.zalloc.is_some() && stream.zfree.is_some());
+    let zalloc = stream.zalloc.unwrap();
+    let zfree = stream.zfree.unwrap();
+    let default_alloc = zalloc == RUST.zalloc;
+    let default_free = zfree == RUST.zfree;
+    assert!(default_alloc == default_free, "allocation and release use the same strategy");
+    if has_alloc && has_free {
+        assert!(zalloc == za as crate::c_api::alloc_func && zfree == zf as crate::c_api::free_func && stream.opaque == op);
+    } else {
+        assert!(default_alloc && default_free, "an incomplete pair is replaced as a whole");
+    }
+    kani::cover!(has_alloc && !has_free);
+    kani::cover!(has_alloc && has_free);
+}
